@@ -11,7 +11,7 @@
      Select timer done    select { case <-time.After(..): ...; case <-ctx.Done(): ... }
      Read pkt err         a blocking Read: returns an error once the socket is closed; a packet is an external event
                           (packets the routine ignores are stutter steps and not represented)
-     Sleep                time.Sleep: a wait that no context interrupts (50 ms reply delay; the limiter's 20 s, F11)
+     Sleep                time.Sleep: a wait that no context interrupts (the 50 ms reply delay of the server)
      Branch               a data-dependent branch (decided by the oracle)
      Loop / Again         for { ... continue }
    and the semantics runs a pool of such processes under an oracle (list of choices: which process moves, whether
@@ -299,9 +299,9 @@ Definition advance (uc : bool) (kok knak kerr : proc) : proc :=
 
 (* panicReset: fctx := WithTimeout(dx.ctx, 30 s); <-fctx.Done() *)
 Definition panic_reset (k : proc) : proc := Push true (WaitDone (Pop k)).
-(* after every state: limiter exhausted -> time.Sleep(20 s) (ignores the context: F11) then panic; else return if
-   dx.ctx is done, else next state *)
-Definition client_tail : proc := Branch (IfDone Halt Again) (Sleep Halt).
+(* after every state: limiter exhausted -> select on a 20 s timer (then panic) and dx.ctx (then return; repair F11);
+   else return if dx.ctx is done, else next state *)
+Definition client_tail : proc := Branch (IfDone Halt Again) (Select Halt Halt).
 (* dclient.Run: the state loop; which state comes next is data (oracle): purge / ifconfig ok | ifconfig failed |
    discovering, selecting, rebinding (broadcast exchange) | renewing (unicast exchange) | ARP check | bound
    (hackAbsoluteSleep: select on ctx and timers; the 17 s re-poll is a stutter step) *)
